@@ -354,4 +354,63 @@ theorem dedup_decode_exact (m : List (Nat × List Nat)) (mons : List HtlcRef) (r
 example : reconcile [⟨7, 0⟩, ⟨8, 0⟩, ⟨8, 1⟩] [⟨7, 0⟩] = [⟨8, 0⟩, ⟨8, 1⟩] := by decide
 example : dedupDecode [(7, [0, 1]), (8, [0])] [⟨7, 0⟩, ⟨7, 1⟩] = [(8, [0])] := by decide
 
+/-! ### A reload fails an outbound HTLC of a closed channel only once the closing transaction is buried
+
+`ClosedMon` = what the closed channel's monitor knows when the manager is read; `WellFormed`: the monitor sets
+`funding_spend_confirmed` only when the FundingSpendConfirmation entry has matured (pinned by gen_restart.py), i.e.
+at `spendHeight + ANTI_REORG_DELAY - 1 ≤ best`.  All heights, all HTLC positions. -/
+
+def WellFormed (m : ClosedMon) : Prop :=
+  m.matured = true → ∃ h, m.spendHeight = some h ∧ h + ANTI_REORG_DELAY - 1 ≤ m.best
+
+/-- failed on reload ⇒ the closing transaction has at least ANTI_REORG_DELAY confirmations -/
+theorem failed_on_reload_only_if_buried (m : ClosedMon) (hw : WellFormed m) (pos : HtlcPos) (r : Bool)
+    (h : failedOnReload m pos r = true) :
+    ∃ ht, m.spendHeight = some ht ∧ ht ≤ m.best ∧ m.confirmations ≥ ANTI_REORG_DELAY := by
+  have hc : m.confirmedForReload = true := by
+    unfold failedOnReload at h
+    cases hx : m.confirmedForReload with
+    | true => rfl
+    | false => simp [hx] at h
+  have key : ∃ ht, m.spendHeight = some ht ∧ ht + ANTI_REORG_DELAY - 1 ≤ m.best := by
+    unfold ClosedMon.confirmedForReload at hc
+    cases hm : m.matured with
+    | true => exact hw hm
+    | false =>
+      rw [hm] at hc
+      cases hs : m.spendHeight with
+      | none => rw [hs] at hc; simp at hc
+      | some ht =>
+        rw [hs] at hc
+        refine ⟨ht, rfl, ?_⟩
+        simpa [fundingSpendBuried] using hc
+  obtain ⟨ht, hs, hb⟩ := key
+  have : ANTI_REORG_DELAY = 6 := rfl
+  refine ⟨ht, hs, by omega, ?_⟩
+  unfold ClosedMon.confirmations
+  rw [hs]; simp only; omega
+
+/-- fewer than ANTI_REORG_DELAY confirmations (or none) ⇒ no outbound HTLC is failed by the reload: it stays pending -/
+theorem not_buried_kept_pending (m : ClosedMon) (hw : WellFormed m) (pos : HtlcPos) (r : Bool)
+    (h : m.confirmations < ANTI_REORG_DELAY) : failedOnReload m pos r = false := by
+  cases hf : failedOnReload m pos r with
+  | false => rfl
+  | true =>
+    obtain ⟨_, _, _, hc⟩ := failed_on_reload_only_if_buried m hw pos r hf
+    omega
+
+/-- ... and once it is buried, an HTLC that is absent from the confirmed commitment (or dust in it) and was not yet
+    reported to the user is failed -/
+theorem buried_absent_failed (m : ClosedMon) (ht : Nat) (hs : m.spendHeight = some ht)
+    (hb : ht + ANTI_REORG_DELAY - 1 ≤ m.best) : failedOnReload m .absent false = true ∧ failedOnReload m .dust false = true := by
+  have : m.confirmedForReload = true := by
+    unfold ClosedMon.confirmedForReload
+    rw [hs]; simp [fundingSpendBuried, hb]
+  simp [failedOnReload, this]
+
+example : failedOnReload ⟨false, some 100, 100⟩ .absent false = false := by decide   -- 1 confirmation
+example : failedOnReload ⟨false, some 100, 104⟩ .dust false = false := by decide     -- 5 confirmations
+example : failedOnReload ⟨false, some 100, 105⟩ .absent false = true := by decide    -- 6 confirmations
+example : failedOnReload ⟨true, some 100, 110⟩ (.output false) false = false := by decide
+
 end Ldk.C10
